@@ -8,9 +8,9 @@ namespace Mdsort.Proofs.World
 open Mdsort Mdsort.Model
 
 /-- `maildir_close` under every fault plan keeps what an error-free processing established. -/
-theorem DoneV.closeStdin {S : Spool} {env : PEnv} {input : Bytes} {v : Verdict} {w : World} (h : DoneV S env input v w)
+theorem DoneV.closeStdin {S : Spool} {env : PEnv} {input : Bytes} {v : Verdict} {w : World} (fuel : Nat) (h : DoneV S env input v w)
     (hd : ∃ snap pos, w.obj S.d = .dir S.sp snap pos) :
-    wp (fun _ => True) (Model.closeStdin (spoolMd S)) (fun _ w' => DoneV S env input v w') w := by
+    wp (fun _ => True) (Model.closeStdin fuel (spoolMd S)) (fun _ w' => DoneV S env input v w') w := by
   cases v with
   | failed => exact h.elim
   | unmatched => exact wp_mono wp_triv (fun _ _ _ => trivial)
@@ -18,7 +18,7 @@ theorem DoneV.closeStdin {S : Spool} {env : PEnv} {input : Bytes} {v : Verdict} 
     by_cases hyp : env.dryrun = false ∧ (∀ m ∈ ml, m.ty ≠ .discard) ∧ (∃ m ∈ ml, moveTy m.ty) ∧
         (∀ m ∈ ml, moveTy m.ty → destPath m.path ≠ some S.sp)
     · obtain ⟨p, n, fid, hp, hg⟩ := h hyp.1 hyp.2.1 hyp.2.2.1 hyp.2.2.2
-      exact wp_mono (closeStdin_keeps S hp hg hd) (fun _ w' hg' _ _ _ _ => ⟨p, n, fid, hp, hg'⟩)
+      exact wp_mono (closeStdin_keeps S hp fuel hg hd) (fun _ w' hg' _ _ _ _ => ⟨p, n, fid, hp, hg'⟩)
     · exact wp_mono wp_triv (fun _ _ _ h1 h2 h3 h4 => absurd ⟨h1, h2, h3, h4⟩ hyp)
 
 /-- `main` up to the cleanup, under every fault plan. -/
@@ -202,20 +202,21 @@ theorem stdin_exit0 (env : PEnv) (orc : EvalOracles) (conf : List ConfBlock) (fi
       simp at this
     | some y =>
       obtain ⟨_, hdone⟩ := hx
-      show World.wp _ ((closeStdin y.2).bind fun _ => Prog.ret (exitStatus env y.1, y.1)) _ w1
+      show World.wp _ ((closeStdin (stdinFuel env) y.2).bind fun fo =>
+        Prog.ret (exitStatus env (orFuel y.1 fo), orFuel y.1 fo)) _ w1
       cases herr : y.1.error with
       | true =>
         refine World.wp_bind_mono World.wp_triv ?_
-        intro _ w2 _ h0
+        intro fo w2 _ h0
         exfalso
-        have := ((exitStatus_stdin env y.1 hm).2.2.1 h0).1
+        have : y.1.error = false := ((exitStatus_stdin env (orFuel y.1 fo) hm).2.2.1 h0).1
         rw [herr] at this
         cases this
       | false =>
         obtain ⟨S, name0, hS, hmd, hk, hobj, hd⟩ := hdone herr
         obtain ⟨fl, as, hfl, hv⟩ := hd
         rw [hmd]
-        refine World.wp_bind_mono (World.DoneV.closeStdin hv hobj) ?_
+        refine World.wp_bind_mono (World.DoneV.closeStdin _ hv hobj) ?_
         intro _ w2 hv2 _
         exact delivered_of_done hS hk ⟨fl, as, hfl, hv2⟩
   have := (World.wp_sound plan hmain 0).2
@@ -250,8 +251,8 @@ theorem stdin_spool_removed (env : PEnv) (orc : EvalOracles) (conf : List ConfBl
     obtain ⟨hclean, _⟩ := hhead
     have hw : World.wpN (World.stdinFinish env files (some y))
         (fun _ w' => ∀ q, (w'.dir q).isSome → (w.dir q).isSome) w1 :=
-      World.wpN_bind_mono (f := fun _ => Prog.ret (exitStatus env y.1, y.1)) (World.closeStdin_clean hclean)
-        (fun _ _ h => h)
+      World.wpN_bind_mono (f := fun fo => Prog.ret (exitStatus env (orFuel y.1 fo), orFuel y.1 fo))
+        (World.closeStdin_clean hclean (stdinFuel env) (by simp [stdinFuel])) (fun _ _ h => h.1)
     exact World.wpN_sound plan i1 hplan hw
 
 end Mdsort.Proofs
